@@ -34,7 +34,7 @@ class E2Report:
         self.r = Report(prop, tier, seed)
         self.tier = tier
         self.max_paths = 4000 if tier == "quick" else 60000
-        self.time_budget = 120 if tier == "quick" else 900
+        self.time_budget = 400 if tier == "quick" else 1200
 
     def run(self, site, program, fn=None, replay=None, max_paths=None, site_of=None):
         """program(ctx): one symbolic execution.  replay(label, model_values, detail) -> (reproduced, text)"""
